@@ -88,6 +88,19 @@ pub fn break_workspace(ws: &mut Workspace, c: &mut Choices, cfg: &BreakCfg) -> V
                 ws.files[fi].text.push_str("\nfn broken_case(x, y) {\n  case x { a, b -> b\n    #(p, q), r, s -> s\n    _ -> y }\n  case x, y { a -> a }\n}\n");
                 log.push(format!("clause/subject arity mismatch in file {}", fi));
             }
+            6 if c.chance(50) => {
+                // one long flat chain (operators, field accesses, calls, pipes): wide, not deep, in the
+                // source - but left-nested in the tree
+                let n = *c.pick(&[200usize, 600, 1500, 3000]);
+                let link = *c.pick(&[" + 1", ".zf", "()", " |> zg", " <> \"s\""]);
+                let mut t = String::from("\nfn zchain(za) {\n  za");
+                for _ in 0..n {
+                    t.push_str(link);
+                }
+                t.push_str("\n}\n");
+                ws.files[fi].text.push_str(&t);
+                log.push(format!("flat chain of {} x `{}` in file {}", n, link.trim(), fi));
+            }
             6 => {
                 // ill-formed but parseable shapes an editor passes through while code is being typed
                 const SNIPPETS: &[&str] = &[
